@@ -1388,15 +1388,16 @@ Proof.
     + unfold draw. cbn [fst snd]. apply inv_irrelevant; auto. apply (inv_fields pop); auto.
   - (* ALogCas *) exact Ip.
   - (* AYield *) apply inv_yield; auto.
+  - (* AEpoch *) apply (inv_fields pop); auto.
   - (* ASleep *)
-    destruct (N.leb_spec (now s + d) (now s)); cbn [fst]; [exact Ip|].
-    apply (inv_sleep f (now s + d)%N pop); auto.
+    destruct (N.leb_spec (tbase ab s + d) (now s)); cbn [fst]; [exact Ip|].
+    apply (inv_sleep f (tbase ab s + d)%N pop); auto.
   - (* APark *) apply inv_park; auto.
   - (* ATimedPark *)
     unfold draw. cbn [fst snd].
     set (s1 := set_wq q (wq q pop ++ [f]) pop).
     set (v := (draws (rc s1) mod slpt cf)%N).
-    set (ns := (now s + d + v)%N).
+    set (ns := (tbase ab s + d + v)%N).
     set (s3 := updf f (fun r' => with_pend r' (PTimed q ns)) (set_rc s1 (S (rc s1)))).
     assert (I3 : inv s3).
     { apply (inv_fields (updf f (fun r' => with_pend r' (PTimed q ns)) s1)); auto.
@@ -1532,11 +1533,11 @@ Lemma inv_start : forall t d (r : fiber) c rc0 inj0 n0 rq,
   (forall k, n0 <= k -> alloc k <> d) -> pend r = PNone -> joiner r = None -> fs r <> FCompleted ->
   ((c = None /\ rq = [d]) \/ (c = Some d /\ rq = [])) ->
   inv alloc {| now := t; runq := rq; sleepm := []; waitq := []; locked := []; fibers := [(d, r)]; slots := [];
-               cur := c; rc := rc0; inj := inj0; nsp := n0; crashed := false |}.
+               cur := c; rc := rc0; inj := inj0; nsp := n0; crashed := false; epoch := 0%N |}.
 Proof.
   intros t d r c rc0 inj0 n0 rq Hfr Hp Hj Hf Hc.
   set (s0 := {| now := t; runq := rq; sleepm := []; waitq := []; locked := []; fibers := [(d, r)]; slots := [];
-                cur := c; rc := rc0; inj := inj0; nsp := n0; crashed := false |}).
+                cur := c; rc := rc0; inj := inj0; nsp := n0; crashed := false; epoch := 0%N |}).
   assert (HC : forall f, Cc s0 f = b2n (Nat.eqb d f)).
   { intros f. unfold Cc. simpl. destruct Hc as [[-> ->]|[-> ->]]; simpl; lia. }
   assert (HW : forall f, Wc s0 f = 0) by reflexivity.
